@@ -35,9 +35,13 @@ type c02Case struct {
 	EmptyAt   []int  `json:"empty_packets_at"`                                    // body offsets at which a header-only packet (no EOM) is inserted
 	EmptyEOM  bool   `json:"header_only_eom"`                                     // the EOM flag travels on a trailing header-only packet
 	EmptyTail int    `json:"header_only_packets_before_the_eom_packet,omitempty"` // with EmptyEOM: further header-only packets (no EOM) directly before it
-	Reads     []int  `json:"read_cuts,omitempty"`                                 // stream offsets where a new read() result starts; nil+ViaReader = one read
-	Via       string `json:"via"`                                                 // "writepacket" (Channel.WritePacket directly) | "reader" (transport + reader goroutine)
-	Bounds    []int  `json:"package_bounds"`
+	// StatusExtra: further header status bits on every packet of the response
+	// (0x02 attention acknowledgement, 0x08 event, ...), also next to the
+	// end-of-message bit of the last packet
+	StatusExtra int    `json:"other_header_status_bits,omitempty"`
+	Reads       []int  `json:"read_cuts,omitempty"` // stream offsets where a new read() result starts; nil+ViaReader = one read
+	Via         string `json:"via"`                 // "writepacket" (Channel.WritePacket directly) | "reader" (transport + reader goroutine)
+	Bounds      []int  `json:"package_bounds"`
 	// Prelude: a complete earlier response (one packet) is delivered and
 	// consumed on the same channel first; the response under test is then
 	// the second one on that channel.
@@ -263,6 +267,13 @@ func c02Exec(c *Ctx, cs c02Case, ref c02Ref) {
 		}
 		pkts = append(pkts, last)
 	}
+	if cs.StatusExtra != 0 {
+		for i := range pkts {
+			p := append([]byte(nil), pkts[i]...)
+			p[1] |= byte(cs.StatusExtra)
+			pkts[i] = p
+		}
+	}
 	out, err := c02DeliverOpt(pkts, cs.Via, cs.Reads, cs.Prelude)
 	if err != nil {
 		r.Inconclusive("cannot set up connection: %v", err)
@@ -289,7 +300,7 @@ func c02Exec(c *Ctx, cs c02Case, ref c02Ref) {
 		inside = true
 	}
 	if inside {
-		key, _ := json.Marshal([]interface{}{cs.Resp, cs.Family, cs.Cuts, cs.EmptyAt, cs.EmptyEOM, cs.Reads, cs.Prelude, cs.EmptyTail})
+		key, _ := json.Marshal([]interface{}{cs.Resp, cs.Family, cs.Cuts, cs.EmptyAt, cs.EmptyEOM, cs.Reads, cs.Prelude, cs.EmptyTail, cs.StatusExtra})
 		r.Distinct(string(key))
 	}
 	fam := cs.Family
@@ -466,6 +477,13 @@ func runC02(c *Ctx) {
 			cu := randomCuts(rnd, n, rnd.Range(0, 3))
 			tail := i % 3 // 0, 1 or 2 further header-only packets before the one carrying EOM
 			add("header-only-eom-packet", func(cs *c02Case) { cs.Cuts = cu; cs.EmptyEOM = true; cs.EmptyTail = tail })
+		}
+		// (f3) other header status bits next to (and instead of) end-of-message
+		for i, extra := range []int{0x02, 0x08, 0x0a, 0x04, 0x30} {
+			cu := randomCuts(rnd, n, i%3)
+			ex := extra
+			eom := i%2 == 1
+			add("other-header-status-bits", func(cs *c02Case) { cs.Cuts = cu; cs.StatusExtra = ex; cs.EmptyEOM = eom })
 		}
 		// (f2) a request sent by the client between two packets of the response
 		for i := 0; i < 6; i++ {
